@@ -510,9 +510,8 @@ func (c *Ctx) ruleFits(rule string) {
 		for root.Parent() != nil {
 			root = root.Parent()
 		}
-		if !strings.HasSuffix(c.M.Key(root), "ObjectSchema.unserializeToStruct") {
-			continue
-		}
+		// (wherever the struct mapper keeps the conversion: in the mapping function, in a closure of it, in a helper
+		// that is handed the field and the value - any Convert of the package whose result is Set)
 		cnt := 0
 		for _, b := range fn.Blocks {
 			for _, in := range b.Instrs {
